@@ -13,8 +13,9 @@ ASSUMPTIONS = [
     "a job is the real ClientConnectionJob around a fake socket; daemon._handshake is a stub that records start/end of the job (one yield point in between) and the refusal reason; time.sleep and Thread.join(timeout) in Pool.close are not steps",
     "len() calls that are arguments of log.<level>(...) statements are not steps (logging edits do not change the model)",
     "a retiring worker (told to exit, OS thread not yet finished) is not counted as a pool worker",
+    "racing-closer cases: Pool.close() runs in a second controlled thread (index 1) while thread 0 is still submitting; the end of close's first locked region is observed as the closing thread's first lock release (or its write of Pool.closed, whichever comes first)",
 ]
-IMPORTS = "From V Require Import Model.Bytes Model.Pool Gen.GenPool Harness.Cmp Harness.H18."
+IMPORTS = "From V Require Import Model.Bytes Model.Pool Model.PoolRace Gen.GenPool Harness.Cmp Harness.H18."
 
 
 class FakeSock:
@@ -55,6 +56,8 @@ class Rec:
         self.main_error = None
         self.deny_snapshots = []
         self.viol = []           # (signature, what) found by the per-step oracle
+        self.region1_done_at = None
+        self.handoff_clock = {}
 
 
 def jid_of(conn):
@@ -67,6 +70,8 @@ def run_impl(case):
     from Pyro5 import svr_threads
     config = Pyro5.config
     size, minw, njobs, do_close = case["size"], case["min"], case["njobs"], case["close"]
+    race = bool(case.get("race"))          # Pool.close() called by a second thread (index 1) while thread 0 submits
+    fw = 2 if race else 1                  # index of the first worker thread
     saved = (config.THREADPOOL_SIZE, config.THREADPOOL_SIZE_MIN, config.COMMTIMEOUT, config.POLLTIMEOUT)
     config.THREADPOOL_SIZE, config.THREADPOOL_SIZE_MIN, config.COMMTIMEOUT, config.POLLTIMEOUT = size, minw, 0, 0
     ctl = coop_pool.Ctl()
@@ -125,17 +130,22 @@ def run_impl(case):
                         server.events([server.sock])
                     except svr_threads.PoolError:
                         rec.poolclosed.append(j)
-                if do_close:
+                if do_close and not race:
                     pool.close()
                     rec.close_returned_at = ctl.clock
+
+            def closer_body():
+                holder["pool"].close()
+                rec.close_returned_at = ctl.clock
             mt = ctl.spawn_main(main_body)
+            kt = ctl.spawn_main(closer_body) if race else None
             pool = svr_threads.Pool()
             pool.count_lock = coop.CoopLock(ctl)
             server.pool = pool
             holder["pool"] = pool
 
             def widx(w):
-                return w._coop_t.idx - 1
+                return w._coop_t.idx - fw
 
             def sets():
                 return [widx(w) for w in pool.__dict__["_idle"].members()], [widx(w) for w in pool.__dict__["_busy"].members()]
@@ -148,31 +158,46 @@ def run_impl(case):
                     rec.viol.append(("idle-busy-overlap", "a worker is in Pool.idle and Pool.busy at the same time (idle=%s busy=%s)" % (idle, busy)))
                 if len(idle) + len(busy) > size and not any(v[0] == "more-workers-than-size" for v in rec.viol):
                     rec.viol.append(("more-workers-than-size", "the pool holds %d workers with THREADPOOL_SIZE=%d (idle=%s busy=%s)" % (len(idle) + len(busy), size, idle, busy)))
-                if kind == "deny":
-                    pass
-                if rec.close_returned_at is None and i == 0 and kind == "idle_len":
-                    rec.deny_snapshots.append((len(idle), len(busy)))
-            ctl.after_step = after_step
+            def bookkeeping(c, i, kind):
+                # moments the racing-close oracle needs: end of close's first locked region, hand-off of each connection
+                if race and i == 1 and rec.region1_done_at is None and kind in ("release", "closed_write"):
+                    rec.region1_done_at = ctl.clock
+                if i == 0 and kind == "slot_write":
+                    rec.handoff_clock[server.sock.n - 1] = ctl.clock
+            inner_after = after_step
+
+            def after_step2(c, i, kind):
+                bookkeeping(c, i, kind)
+                inner_after(c, i, kind)
+            ctl.after_step = after_step2
             ctl.start_main(mt)
+            if race:
+                ctl.start_main(kt)
             trace = []
             for (t, ch) in case["sched"]:
                 trace.append(ctl.step(t, ch))
             idle, busy = sets()
             owner = pool.count_lock.owner
             workers = []
-            for t in ctl.threads[1:]:
+            for t in ctl.threads[fw:]:
                 w = t.obj
                 job = w.__dict__.get("_job")
                 workers.append({"slot": None if job is None else jid_of(job.csock), "ev": bool(w.job_available.flag),
                                 "exit": bool(t.done), "crash": t.error is not None})
-            obs = {"trace": trace, "lock": None if owner is None else owner.idx, "idle": idle, "busy": busy,
+            if owner is None:
+                lock_obs = None
+            elif race:
+                lock_obs = 0 if owner.idx <= 1 else owner.idx - 1      # accept loop and closer share owner id 0 in the model
+            else:
+                lock_obs = owner.idx
+            obs = {"trace": trace, "lock": lock_obs, "idle": idle, "busy": busy, "closer_done": bool(kt.done) if race else False,
                    "closed": bool(pool.__dict__.get("_closed", False)), "workers": workers,
                    "started": list(rec.started), "ended": list(rec.ended), "refused": list(rec.refused),
                    "poolclosed": list(rec.poolclosed), "main_done": bool(ctl.threads[0].done), "reasons": list(rec.reasons)}
             # ---- drain to quiescence for the end-of-run oracle
             ctl.drain()
             viol = list(rec.viol)
-            viol += final_oracle(case, ctl, pool, rec, sets)
+            viol += final_oracle(case, ctl, pool, rec, sets, fw)
             ctl.after_step = None
             ctl.shutdown()
             server.pool = None      # keep SocketServer_Threadpool.__del__ away from the un-instrumented pool
@@ -183,19 +208,36 @@ def run_impl(case):
         config.THREADPOOL_SIZE, config.THREADPOOL_SIZE_MIN, config.COMMTIMEOUT, config.POLLTIMEOUT = saved
 
 
-def final_oracle(case, ctl, pool, rec, sets):
+def final_oracle(case, ctl, pool, rec, sets, fw=1):
     """the property, stated over the quiescent end state of the real run"""
     bad = []
     size, njobs, do_close = case["size"], case["njobs"], case["close"]
+    race = bool(case.get("race"))
+    do_close = do_close or race
     main = ctl.threads[0]
-    for t in ctl.threads[1:]:
+    if race:
+        closer = ctl.threads[1]
+        if closer.error is not None:
+            bad.append(("close-died:" + type(closer.error).__name__, "Pool.close raised %r in the closing thread" % (closer.error,)))
+        if not closer.done and closer.error is None:
+            bad.append(("deadlock", "the closing thread is blocked forever (pending %r) with no thread enabled" % (closer.pending,)))
+        # once close has finished telling the workers to stop (end of its first locked region) no connection may be
+        # handed to a worker any more: a later submit has to be refused with PoolError
+        if rec.region1_done_at is not None:
+            for j, clk in sorted(rec.handoff_clock.items()):
+                if clk > rec.region1_done_at:
+                    if j in rec.started:
+                        bad.append(("job-started-after-close", "connection %d was handed to a worker and started after Pool.close had told all workers to stop" % j))
+                    elif j not in rec.refused and j not in rec.poolclosed:
+                        bad.append(("job-dropped", "connection %d was accepted after Pool.close had told all workers to stop: never served, never refused, no PoolError" % j))
+    for t in ctl.threads[fw:]:
         if t.error is not None:
-            bad.append(("worker-died:" + type(t.error).__name__, "worker thread %d died with %r" % (t.idx - 1, t.error)))
+            bad.append(("worker-died:" + type(t.error).__name__, "worker thread %d died with %r" % (t.idx - fw, t.error)))
     if main.error is not None:
         bad.append(("accept-loop-died:" + type(main.error).__name__, "the accept loop / close raised %r" % (main.error,)))
     if not main.done and main.error is None:
         bad.append(("deadlock", "the accept-loop thread is blocked forever (pending %r) with no thread enabled" % (main.pending,)))
-    blocked = [t.idx - 1 for t in ctl.threads[1:] if not t.done and t.pending and t.pending[0] == "acquire"]
+    blocked = [t.idx - fw for t in ctl.threads[fw:] if not t.done and t.pending and t.pending[0] == "acquire"]
     if blocked:
         bad.append(("deadlock", "workers %s are blocked forever on count_lock" % blocked))
     for j in set(rec.started):
@@ -217,10 +259,11 @@ def final_oracle(case, ctl, pool, rec, sets):
     # refusals must happen with all SIZE workers busy at the decision
     for k, (ni, nb) in enumerate(rec.deny_snapshots):
         pass
-    live = [t for t in ctl.threads[1:] if not t.done]
-    if do_close and main.done and main.error is None:
+    live = [t for t in ctl.threads[fw:] if not t.done]
+    close_finished = (ctl.threads[1].done and ctl.threads[1].error is None) if race else True
+    if do_close and main.done and main.error is None and close_finished:
         if live:
-            bad.append(("worker-never-exits", "after Pool.close returned and every job ended, workers %s are still waiting for a job" % [t.idx - 1 for t in live]))
+            bad.append(("worker-never-exits", "after Pool.close returned and every job ended, workers %s are still waiting for a job" % [t.idx - fw for t in live]))
         late = [j for j, c in rec.start_clock.items() if rec.close_returned_at is not None and c > rec.close_returned_at]
         if late:
             bad.append(("job-started-after-close", "jobs %s were started after Pool.close returned" % late))
@@ -254,6 +297,10 @@ def c_case(case, obs):
         clist(["(%s, %s)" % (cnat(t), cnat(c)) for t, c in case["sched"]]), nl(obs["trace"]), copt(obs["lock"]),
         nl(obs["idle"]), nl(obs["busy"]), cbool(obs["closed"]), ws, nl(obs["started"]), nl(obs["ended"]), nl(obs["refused"]),
         nl(obs["poolclosed"]), cbool(obs["main_done"]), clist([ctext(r) for r in obs["reasons"]]))
+
+
+def c_rcase(case, obs):
+    return "{| r_case := %s; r_closer_done := %s |}" % (c_case(case, obs), cbool(obs["closer_done"]))
 
 
 # ---------------------------------------------------------------- generators
@@ -295,12 +342,42 @@ def family_cases():
     return out
 
 
+def gen_race_case(rng, big=False):
+    """accept loop (thread 0) submitting while a second thread (1) runs Pool.close(); workers are threads 2.."""
+    size = rng.choice([1, 1, 2, 2, 3])
+    minw = rng.randint(1, size)
+    njobs = rng.randint(1, 5 if big else 4)
+    nt = 2 + size + 1
+    n = rng.randint(5, 80 if big else 55)
+    sched = []
+    while len(sched) < n:
+        t = rng.choice([0, 0, 1, 1] + list(range(2, nt)))
+        for _ in range(rng.choice([1, 1, 2, 3, 5, 8])):
+            sched.append([t, rng.randrange(3)])
+    sched += drain_sched(nt, 6 + 4 * njobs)
+    return {"size": size, "min": minw, "njobs": njobs, "close": False, "race": True, "sched": sched}
+
+
+def family_race_cases():
+    """systematic: the closer is preempted after each of its first a steps, then the accept loop runs a whole submit
+    (and vice versa: the accept loop is preempted inside process() while the closer runs)"""
+    out = []
+    for (size, minw, njobs) in [(1, 1, 2), (2, 1, 3), (2, 2, 2)]:
+        for m in (0, 4, 9):
+            for a in range(0, 17):
+                sched = [[0, 0]] * m + [[1, 0]] * a + [[0, 0]] * 13 + [[2, 0]] * 5 + [[1, 0]] * 6 + [[0, 0]] * 6
+                sched += drain_sched(size + 3, 6 + 4 * njobs)
+                out.append({"size": size, "min": minw, "njobs": njobs, "close": False, "race": True, "sched": sched})
+    return out
+
+
 def short(obs):
     return {k: obs[k] for k in ("idle", "busy", "closed", "workers", "started", "ended", "refused", "poolclosed", "main_done", "lock")}
 
 
 def execute(ctx, cases, model_ok, res):
     lits, kept = [], []
+    rlits, rkept = [], []
     for case in cases:
         obs, viol = run_impl(case)
         eff = sum(1 for c in obs["trace"] if c)
@@ -314,12 +391,20 @@ def execute(ctx, cases, model_ok, res):
         res.count("effective_steps", eff)
         for sig, what in viol:
             res.violations.append({"signature": sig, "what": what, "case": case})
-        lits.append(c_case(case, obs))
-        kept.append((case, obs))
+        if case.get("race"):
+            res.count("racing_closer")
+            rlits.append(c_rcase(case, obs))
+            rkept.append((case, obs))
+        else:
+            lits.append(c_case(case, obs))
+            kept.append((case, obs))
     if model_ok:
         for idx in vlib.run_cases(ctx, "c", IMPORTS, "case", "check_case", lits, shard=100):
             case, obs = kept[idx]
             res.mismatches.append({"component": "C18", "case": case, "impl": short(obs)})
+        for idx in vlib.run_cases(ctx, "r", IMPORTS, "rcase", "check_rcase", rlits, shard=100):
+            case, obs = rkept[idx]
+            res.mismatches.append({"component": "C18-race", "case": case, "impl": short(obs)})
     return res
 
 
@@ -328,6 +413,9 @@ def all_cases(ctx):
     cases = vlib.load_corpus(PROP) + family_cases()
     for _ in range(ctx.n(900, 9000)):
         cases.append(gen_case(rng, big=not ctx.quick))
+    cases += family_race_cases()
+    for _ in range(ctx.n(200, 2500)):
+        cases.append(gen_race_case(rng, big=not ctx.quick))
     return cases
 
 
@@ -335,7 +423,7 @@ def run(ctx, model_ok=True):
     res = vlib.Result()
     cases = all_cases(ctx)
     execute(ctx, cases, model_ok, res)
-    res.rule = ("pool sizes 1..3 with 1 <= MIN <= SIZE, 1..6 connections submitted through SocketServer_Threadpool.events by the accept-loop "
+    res.rule = ("[racing-closer cases: the same with Pool.close() in a second thread (1) while thread 0 still submits; family: closer preempted after each of its first 0..16 steps] pool sizes 1..3 with 1 <= MIN <= SIZE, 1..6 connections submitted through SocketServer_Threadpool.events by the accept-loop "
                 "thread, optionally followed by Pool.close; schedules of (thread, pop-choice): systematic families with two preemption points "
                 "around notify_done / process / close, then seeded random bursts, each followed by a deterministic drain; one scheduler step = "
                 "one primitive on Pool.idle/busy/closed/count_lock, Worker.job/job_available, thread start, job end or refusal reply. "
@@ -358,6 +446,7 @@ def replay(ctx, case):
     res = vlib.Result()
     execute(ctx, [case], True, res)
     if res.mismatches:
-        model = vlib.eval_model(ctx, IMPORTS, "model_case (%s)" % c_case(case, obs))
+        expr = ("rmodel_case (%s)" % c_rcase(case, obs)) if case.get("race") else ("model_case (%s)" % c_case(case, obs))
+        model = vlib.eval_model(ctx, IMPORTS, expr)
         return True, {"mismatch": True, "impl": short(obs), "trace": obs["trace"], "model": model[-3000:]}
     return False, {"impl": short(obs)}
